@@ -640,6 +640,22 @@ class HistRun:
             return {"op": "report", "report": "query", "coll": c.path, "filter": spec}
         if k == "sync":
             c = self.pick_coll(("calendar", "addressbook", "plain"))
+            if self.prop == "C07" and r.random() < 0.6:
+                # prefer a (collection, token) pair with both changed and removed members since then
+                best = []
+                for path, toks in sorted(self.tokens.items()):
+                    o = self.obs.get(path)
+                    if o is None or not o.exists or path not in self.model.colls:
+                        continue
+                    now = {n: m.get("etag") for n, m in o.members.items()}
+                    for i, t in enumerate(toks):
+                        ch = any(t["snap"].get(n) != e for n, e in now.items())
+                        rm = any(n not in now for n in t["snap"])
+                        if ch and rm:
+                            best.append((path, i))
+                if best:
+                    path, i = r.choice(best)
+                    return {"op": "report", "report": "sync", "coll": path, "token": {"issued": i}}
             toks = self.tokens.get(c.path, [])
             choice = r.random()
             if toks and choice < 0.6:
